@@ -1361,14 +1361,17 @@ func (h *nodeH) stop(check bool) {
 		c.Note("Stop returned after %d virtual seconds", waited)
 	}
 	if h.oracle == "C17" && !c.Failed() {
-		if h.rescanQuit != nil {
-			close(h.rescanQuit)
-		}
-		verifbubble.Wait()
+		// every call that was in flight, the rescan included, must have
+		// returned by itself: the user has not closed the rescan's own
+		// quit channel
 		if h.checkCalls(true) {
+			if h.rescanQuit != nil {
+				close(h.rescanQuit)
+			}
 			return
 		}
-	} else if h.rescanQuit != nil {
+	}
+	if h.rescanQuit != nil {
 		close(h.rescanQuit)
 	}
 	if h.stalledSub != nil {
